@@ -113,7 +113,7 @@ Proof.
     apply c15_neutral_app; [now apply c15_neutral_plain|]. vm_compute; reflexivity.
 Qed.
 
-(* `import <package>.<crate>.<A>` per imported name, then an empty line *)
+(* `import <package>.<crate>.<prefix><A>` per imported name (the prefix since fix 26 of /repo), then an empty line *)
 Lemma kt_write_imports_neutral im : c15_kt_imports_ok im = true -> NK (kt_write_imports cfg im).
 Proof.
   intros Him. unfold kt_write_imports. apply c15_neutral_app; [|vm_compute; reflexivity].
@@ -125,6 +125,7 @@ Proof.
   apply c15_neutral_app; [vm_compute; reflexivity|].
   apply c15_neutral_app; [now apply c15_neutral_plain|].
   apply c15_neutral_app; [vm_compute; reflexivity|].
+  apply c15_neutral_app; [now apply c15_neutral_plain|].
   apply c15_neutral_app; [apply c15_neutral_plain, (Hn t Ht)|vm_compute; reflexivity].
 Qed.
 
